@@ -24,6 +24,18 @@ func Entry(s string, p []byte, n int) {
 	badSum(s, s)
 	goodAfterLoop(s)
 	badAfterLoop(s)
+	badNestedGuard(s, n)
+}
+
+// the index sits between the two tests of a nested exit guard: the inner test has not run yet
+func badNestedGuard(s string, n int) (b byte) {
+	if n > 0 {
+		b = s[3]
+		if len(s) < 4 {
+			return 0
+		}
+	}
+	return b
 }
 
 // induction over the loop header: n <= len(s) holds on entry and on the back edge
